@@ -610,27 +610,29 @@ def _build_uf_system(case):
     el = [i for i in nonrb if i not in rf]
     rb = list(range(nrb))
 
-    def spd(m, full, lo, hi):
+    def spd(m, full, lo, hi, wide=False):
         if m == 0:
             return np.zeros((0, 0))
         dg = rng.uniform(lo, hi, m)
+        if wide and not full:
+            dg = 10.0 ** rng.uniform(0.0, 12.0, m)     # soft and very stiff modes side by side (diagonal only)
         if not full or m == 1:
             return np.diag(dg)
         Q, _ = np.linalg.qr(rng.standard_normal((m, m)))
         A = Q @ np.diag(dg) @ Q.T
         return (A + A.T) / 2
 
-    def assemble(full, lo, hi, rbval):
+    def assemble(full, lo, hi, rbval, wide=False):
         A = np.zeros((n, n))
         if rb:
             A[np.ix_(rb, rb)] = np.diag(np.full(nrb, rbval))
-        A[np.ix_(el, el)] = spd(len(el), full, lo, hi)
-        A[np.ix_(rf, rf)] = spd(len(rf), full, lo, hi)
+        A[np.ix_(el, el)] = spd(len(el), full, lo, hi, wide)
+        A[np.ix_(rf, rf)] = spd(len(rf), full, lo, hi, wide)
         return A
 
     M = assemble(case["mform"] == "full", 0.5, 2.0, 1.0) if case["mform"] != "none" else np.eye(n)
     B = assemble(case["bform"] == "full", 0.1, 1.0, 0.0)
-    K = assemble(case["kform"] == "full", 1.0, 30.0, 0.0)
+    K = assemble(case["kform"] == "full", 1.0, 30.0, 0.0, wide=bool(case.get("kwide")))
     nt = case["nt"]
 
     def data():
@@ -678,6 +680,23 @@ def _cmp_uf(R, S, sol0, out, uf, tag):
         R.metric("uf_disp_err/tol", err / tol)
         R.check(err <= tol, f"uf_{nm}", f"{tag}: err={err:.3e} tol={tol:.3e} got={np.asarray(got).tolist()} "
                                         f"want={want[nm].tolist()}")
+    # diagonal stiffness: the documented d_dynamic = -euf*duf*inv(k)*(m*a + b*v) is a row-by-row quotient, accurate
+    # relative to that row's own inertia + damping force over its own stiffness (however large k*d is next to it)
+    el_ = S["el"]
+    Kee = S["K"][np.ix_(el_, el_)] if el_ else np.zeros((0, 0))
+    if el_ and getattr(out, "d_dynamic", None) is not None and np.array_equal(Kee, np.diag(np.diag(Kee))) \
+            and np.shape(out.d_dynamic) == want["d_dynamic"].shape:
+        ix = np.ix_(el_, el_)
+        mag = (np.abs(S["M"][ix]) @ np.abs(sol0.a[el_]) + np.abs(S["B"][ix]) @ np.abs(sol0.v[el_])) \
+            / np.diag(Kee)[:, None] * abs(uf[1] * uf[2])
+        err = np.abs(np.asarray(out.d_dynamic)[el_] - want["d_dynamic"][el_])
+        rowtol = CT * EPS * mag
+        worst = float((err / np.maximum(rowtol, 1e-300)).max()) if err.size else 0.0
+        if np.any(mag > 0):
+            R.metric("uf_d_dynamic_rowwise/tol", worst)
+        R.check(bool(np.all(err <= rowtol)), "uf_d_dynamic_rowwise",
+                f"{tag}: worst err/tol={worst:.3g}; k={np.diag(Kee).tolist()}")
+        R.label("kdiag:wide" if np.diag(Kee).max() > 1e6 * np.diag(Kee).min() else "kdiag:narrow")
     if getattr(out, "d", None) is not None and hasattr(out, "d_static") and hasattr(out, "d_dynamic"):
         s_ = np.asarray(out.d_static) + np.asarray(out.d_dynamic)
         R.check(bool(np.all(np.abs(out.d - s_) <= 4 * EPS * np.maximum(np.abs(out.d), np.abs(s_)))),
@@ -788,7 +807,8 @@ def uf_cases(draw):
             "rfpos": draw(st.sampled_from(["end", "mixed"])), "rfspec": draw(st.sampled_from(["index", "bool"])),
             "nt": draw(st.integers(1, 5)), "mform": draw(st.sampled_from(["none", "vec", "full"])),
             "bform": draw(st.sampled_from(["vec", "full"])), "kform": draw(st.sampled_from(["vec", "full"])),
-            "pg": draw(st.booleans()), "cplx": draw(st.integers(0, 3)) == 0, "ufs": ufs, "route": route}
+            "pg": draw(st.booleans()), "cplx": draw(st.integers(0, 3)) == 0, "ufs": ufs, "route": route,
+            "kwide": draw(st.booleans())}
     if route == "function":
         case["ops"] = [{"uf": draw(st.integers(0, nuf - 1)),
                         "cache": draw(st.sampled_from(["shared", "shared", "shared", "fresh", "none"]))}
